@@ -220,6 +220,56 @@ def main(budget):
                     what = ("view %s of a %s-ordered memmap is rebuilt with other elements in the worker: %s" % (expr, order, line)) if pr.returncode == 0 else \
                            ("rebuilding the view %s of a %s-ordered memmap crashed the process (exit code %d) %s" % (expr, order, pr.returncode, pr.stderr.strip().splitlines()[-1:]))
                     return dict(violation=True, cases=cases, what=what, witness=dict(memmap_order=order, view=expr, shape=[5, 6], dtype="int64"))
+        # field views of PACKED structured memmaps: strides that are not multiples of the item size, elements not aligned to it
+        child2 = (
+            "import sys, os, numpy as np\n"
+            "from joblib._memmapping_reducer import _reduce_memmap_backed, _get_backing_memmap\n"
+            "fn, which, expr = sys.argv[1], sys.argv[2], sys.argv[3]\n"
+            "dt = np.dtype([('b', '<i4'), ('a', 'u1')]) if which == 'ba' else np.dtype([('a', 'u1'), ('b', '<i4'), ('c', '<i2')])\n"
+            "m = np.memmap(fn, dtype=dt, mode='r+')\n"
+            "a = eval(expr)\n"
+            "bm = _get_backing_memmap(a)\n"
+            "f, args = _reduce_memmap_backed(a, bm)\n"
+            "b = f(*args)\n"
+            "ok = a.shape == b.shape and a.dtype == b.dtype and np.array_equal(np.asarray(a), np.asarray(b))\n"
+            "print('SAME' if ok else 'DIFFERENT tail %r -> %r' % (np.asarray(a).ravel().tolist()[-3:], np.asarray(b).ravel().tolist()[-3:]))\n")
+        for which, dt in (("ba", np.dtype([("b", "<i4"), ("a", "u1")])), ("abc", np.dtype([("a", "u1"), ("b", "<i4"), ("c", "<i2")]))):
+            fn = os.path.join(root, "packed_%s.mmap" % which)
+            mm = np.memmap(fn, dtype=dt, shape=(820,), mode="w+")
+            mm["b"] = np.arange(1000, 1820)
+            mm["a"] = np.arange(820) % 251
+            mm.flush()
+            del mm
+            for expr in ("m['b']", "m['a']", "m['b'][1:]", "m['b'][::3]", "m[-1:]['b']") + (("m['c']", "m['c'][5:]") if which == "abc" else ()):
+                cases += 1
+                pr = subprocess.run([sys.executable, "-c", child2, fn, which, expr], capture_output=True, text=True, timeout=120)
+                line = (pr.stdout.strip().splitlines() or [""])[-1]
+                if pr.returncode != 0 or not line.startswith("SAME"):
+                    what = ("field view %s of a packed structured memmap (%s) is rebuilt with other elements in the worker: %s" % (expr, dt, line)) if pr.returncode == 0 else \
+                           ("rebuilding the field view %s of a packed structured memmap crashed (exit code %d) %s" % (expr, pr.returncode, pr.stderr.strip().splitlines()[-1:]))
+                    return dict(violation=True, cases=cases, what=what, witness=dict(dtype=str(dt), view=expr, records=820))
+        # automatic memmapping under every documented mmap_mode, None ("disable memmapping") included: the task sees the caller's values
+        probe_modes = ("import numpy as np, json, warnings\n"
+                       "warnings.simplefilter('ignore')\n"
+                       "from joblib import Parallel, delayed\n"
+                       "a = np.arange(10000, dtype='f8')\n"
+                       "out = {}\n"
+                       "for mode in (None, 'r', 'c', 'r+'):\n"
+                       "    try:\n"
+                       "        out[str(mode)] = [float(x) for x in Parallel(n_jobs=2, backend='loky', mmap_mode=mode, max_nbytes=100, timeout=60)(delayed(np.sum)(a) for _ in range(2))]\n"
+                       "    except BaseException as e:\n"
+                       "        out[str(mode)] = repr(e)[:120]\n"
+                       "print(json.dumps(out))\n")
+        cases += 4
+        try:
+            pr = subprocess.run([sys.executable, "-c", probe_modes], capture_output=True, text=True, timeout=240)
+            res = json.loads(pr.stdout.strip().splitlines()[-1]) if pr.returncode == 0 and pr.stdout.strip() else {"?": pr.stderr[-200:]}
+        except subprocess.TimeoutExpired:
+            res = {"?": "no termination within 240 s"}
+        want = [float(np.arange(10000, dtype="f8").sum())] * 2
+        badm = {k: v for k, v in res.items() if v != want}
+        if badm:
+            return dict(violation=True, cases=cases, what="automatic memmapping with max_nbytes=100: tasks did not see the array for mmap_mode %r" % (badm,), witness=badm)
         # K23 (recorded finding): automatic memmapping keys the temporary file of a large array by the array's identity; inside one
         # `with Parallel` block an array modified in place between two calls reaches the workers with its OLD contents
         probe = ("import numpy as np, json, warnings\n"
